@@ -115,7 +115,8 @@ func (p *Program) verifyFunc(name string, c *FuncContract) (res *FuncResult) {
 	env := ex.newEnv(st, nil, pkg, fr)
 	ex.bindParams(env, fr)
 	for _, r := range c.Requires {
-		if isImplements(r.Expr) {
+		if isImplements(r.Expr) || len(r.Scope) > 0 {
+			// (a scoped clause speaks about particular callers: it is not a fact about every call)
 			continue
 		}
 		f := env.Bool(r.Expr)
@@ -260,7 +261,9 @@ func (ex *Exec) typeInvariant(st *State, t Term, ty types.Type) {
 		st.assume(and(app("<=", lo, t.S), app("<=", t.S, hi)))
 	}
 	if t.Sort == SRef {
-		if _, ok := ty.Underlying().(*types.Pointer); ok {
+		_, isPtr := ty.Underlying().(*types.Pointer)
+		_, isMap := ty.Underlying().(*types.Map)
+		if isPtr || isMap {
 			if st.allocTop.S == "" {
 				ex.vc.declare("alloc0", SInt)
 				st.allocTop = Term{"alloc0", SInt}
